@@ -731,11 +731,22 @@ func (s *storage) ReceiveBlob(ctx context.Context, br blob.Ref, source io.Reader
 
 	// Check if it's a dup. Still accept it if the pack file on disk seems to be corrupt
 	// or truncated.
+	// Only append when the index says the blob is absent, or when its pack
+	// file is really missing or too short. If the index or the pack file
+	// cannot be looked at right now, appending might add a second copy of a
+	// blob that is already packed; a later removal would destroy only the
+	// copy the index points at, and a Reindex would bring the blob back
+	// from the other one.
 	if m, err := s.meta(br); err == nil {
 		fi, err := os.Stat(s.filename(m.file))
 		if err == nil && fi.Size() >= m.offset+int64(m.size) {
 			return sbr, nil
 		}
+		if err != nil && !os.IsNotExist(err) {
+			return blob.SizedRef{}, err
+		}
+	} else if !errors.Is(err, os.ErrNotExist) {
+		return blob.SizedRef{}, err
 	}
 
 	err = s.append(sbr, &b)
